@@ -1165,7 +1165,7 @@ impl<T: TraceStorage> ChainProcess<T> {
                     }
 
                     let now = Instant::now();
-                    let (_point, mut draw_data, mut stats, info) = sampler.expanded_draw().unwrap();
+                    let (_point, mut draw_data, mut stats, info) = sampler.expanded_draw()?;
 
                     let mut guard = chain_trace
                         .lock()
